@@ -8,14 +8,21 @@ PROP = "C20"
 COQ_TARGETS = ["Properties/C20", "Extract/ExC20"]
 MODEL_ML = "c20_model.ml"
 MODEL_NAME = "c20"
+GENS = ["gen_src_geonet"]
 TRUSTED_BASE = [
     "Coq 8.16.1 kernel (coqc), vm_compute for the finite sweeps over 256 codes / 64x4 pairs; no native_compute",
     "extraction (ExtrOcamlBasic only; Z/positive stay Coq datatypes) + ocaml/driver_body.ml + OCaml 4.13.1",
     "hand-written model coq/theories/Model/Lifetime.v, tied to the code by differential execution (this harness)",
+    "translator tools/pyz.py + tools/gen_src_geonet.py (Python ast -> Gallina, fail-closed): LT.set_value_in_millis, "
+    "LT.get_value_in_millis, LT.encode_to_int, BasicHeader.encode_to_int / decode_from_int / set_rhl are regenerated from the "
+    "source on every run (Gen/SrcGeonet.v) and proved equal to the model for all arguments (C20_source_* theorems); the "
+    "translator's reading of Python semantics (unbounded ints, floor division, enum members by value) is trusted",
     "Python harness harness/c20.py, harness/stack.py",
 ]
 ASSUMPTIONS = [
-    "the model is tied to LT.set_value_in_millis / BasicHeader / Router by execution on the same inputs, not by proof",
+    "LT.set_value_in_millis / get_value_in_millis / encode_to_int and BasicHeader.encode_to_int are tied to the model by "
+    "proof over their regenerated translation; the float path, BasicHeader.initialize_* and the Router's hop-limit choices "
+    "are tied by execution on the same inputs, not by proof",
     "the float path int(seconds*1000) of initialize_with_mib_request_and_rhl is compared against the integer model "
     "for every millisecond value of the sweep (it never loses a millisecond at a representable lifetime)",
 ]
